@@ -75,6 +75,14 @@ def Ev.isEnter : Ev → Bool
   | .enter _ => true
   | _ => false
 
+def Ev.isStatus : Ev → Bool
+  | .status _ _ => true
+  | _ => false
+
+def Ev.isWrite : Ev → Bool
+  | .write _ _ => true
+  | _ => false
+
 /-- cursor and trace of the running request (`Context.index` + what the handlers recorded) -/
 structure St where
   idx : Int
@@ -296,6 +304,17 @@ def check (s : CSt) : List Ev → Option CSt
     match checkStep s e with
     | some s' => check s' rest
     | none => none
+
+/-- Last in, first out: `enter` pushes, `leave j` must close the innermost running handler, and every
+    other event must belong to the innermost running handler.  Returns the stack at the end. -/
+def nest : List Nat → List Ev → Option (List Nat)
+  | stk, [] => some stk
+  | stk, .enter j :: rest => nest (j :: stk) rest
+  | stk, .leave j :: rest =>
+    match stk with
+    | top :: below => if top = j then nest below rest else none
+    | [] => none
+  | stk, e :: rest => if stk.head? = some e.handler then nest stk rest else none
 
 /-! ### registration-time handler limit (`route.go: Route.Use`, `router.go: appendGroupInfo`) -/
 
